@@ -187,6 +187,7 @@ def run(ctx):
     from mstatic.rules import authhook
     authhook.auth_hook(ctx, r8)
     authhook.request_context(ctx, r8)
+    authhook.identity_headers(ctx, r8)
 
 
 def _run(ctx):
